@@ -1,5 +1,6 @@
 import AtreeProofs.E2EMap.HistoryFull
 import AtreeProofs.Map.DictSpec
+import AtreeProofs.Map.GroupBound
 import AtreeProofs.World.MapRef.Top
 /-
   C02 — Ordered map behaves as a dictionary under every operation HISTORY.
@@ -146,15 +147,16 @@ def SameDict (T : Nat) (D : DigestFn (r + 1)) (ps l : List (MKey × Elem)) : Pro
 
 /-- ONE request answered by the reference dictionary `l` (an association list of keys and VALUES),
     which becomes `l'`.  Deterministic, except that the insertion of a NEW key may be refused with
-    the collision-limit error (exactly when: C12 `limit_refuses_new_key` /
-    `limit_allows_update_and_room`), leaving the dictionary as it was; and `pop` may hand out the
+    the collision-limit error – only when more than `climit` keys of the dictionary already share the
+    first-level digest of the new key (exactly when: C12 `limit_refuses_new_key` /
+    `limit_allows_update_and_room`) – leaving the dictionary as it was; and `pop` may hand out the
     pairs in any order (the order is C12 `order_canonical` / C02 `pop_refines`). -/
-def DictStep (T : Nat) (D : DigestFn (r + 1)) (l : List (MKey × Elem)) (q : MReq) (o : MResp)
+def DictStep (T : Nat) (D : DigestFn (r + 1)) (climit : Nat) (l : List (MKey × Elem)) (q : MReq) (o : MResp)
     (l' : List (MKey × Elem)) : Prop :=
   match q with
   | .set k v =>
     (o = .prev (dictLookup l k) ∧ l' = dictSet l k v) ∨
-    (dictLookup l k = none ∧ o = .err .collisionLimit ∧ l' = l)
+    (dictLookup l k = none ∧ climit < sameFirstDigest l (k.dig 0) ∧ o = .err .collisionLimit ∧ l' = l)
   | .get k =>
     l' = l ∧ o = (match dictLookup l k with | some v => .val v | none => .err .keyNotFound)
   | .has k => l' = l ∧ o = .bool (dictLookup l k).isSome
@@ -167,9 +169,10 @@ def DictStep (T : Nat) (D : DigestFn (r + 1)) (l : List (MKey × Elem)) (q : MRe
   | .pop => l' = [] ∧ ∃ ps, o = .pairs ps ∧ SameDict T D ps l
 
 /-- a list of answers is an answer list of the dictionary started at `l` -/
-def DictHistory (T : Nat) (D : DigestFn (r + 1)) : List (MKey × Elem) → List MReq → List MResp → Prop
+def DictHistory (T : Nat) (D : DigestFn (r + 1)) (climit : Nat) :
+    List (MKey × Elem) → List MReq → List MResp → Prop
   | _, [], [] => True
-  | l, q :: qs, o :: os => ∃ l', DictStep T D l q o l' ∧ DictHistory T D l' qs os
+  | l, q :: qs, o :: os => ∃ l', DictStep T D climit l q o l' ∧ DictHistory T D climit l' qs os
   | _, _, _ => False
 
 /-! ### one step -/
@@ -208,6 +211,7 @@ structure Rep (T : Nat) (D : DigestFn (r + 1)) (st : OMap r × Ctx) (l : List (M
   count : st.1.count = l.length
   keys : AllKeyOk T (r + 1) D l
   dist : KeysDistinct l
+  perm : (st.1.toList.map (·.1)).Perm (l.map (·.1))
 
 theorem dictLookup_map_val (g : Elem → Elem) (l : List (MKey × Elem)) (k : MKey) :
     dictLookup (l.map (fun p => (p.1, g p.2))) k = (dictLookup l k).map g := by
@@ -247,7 +251,7 @@ theorem step_refines (hT : legalThreshold T = true) (m : OMap r) (ctx : Ctx)
     (hg : MGoodF (idCodec r) T D cfg ((m, ctx), s)) (l : List (MKey × Elem)) (hrep : Rep T D (m, ctx) l)
     (q : MReq) (hq : q.Ok T D) :
     ∃ x' l', x'.1 = (request cfg (m, ctx) q).1 ∧ MGoodF (idCodec r) T D cfg x' ∧ Rep T D x'.1 l' ∧
-      DictStep T D l q (request cfg (m, ctx) q).2 l' := by
+      DictStep T D cfg.climit l q (request cfg (m, ctx) q).2 l' := by
   have hlook : ∀ k, KeyOk T (r + 1) D k →
       (dictLookup m.toList k).map (resolve ctx.created) = dictLookup l k := hrep.look
   have hcnt0 : m.count = l.length := hrep.count
@@ -286,7 +290,7 @@ theorem step_refines (hT : legalThreshold T = true) (m : OMap r) (ctx : Ctx)
   | setType ty =>
     obtain ⟨hg', hd, _⟩ := E2EM.mgoodF_stepS (idCodec r) (idCodec_roundTrip r) T hT D cfg ((m, ctx), s) hg
       (.setType ty) trivial
-    refine ⟨_, l, rfl, hg', ⟨?_, ?_, hrep.keys, hrep.dist⟩, rfl, rfl⟩
+    refine ⟨_, l, rfl, hg', ⟨?_, ?_, hrep.keys, hrep.dist, hrep.perm⟩, rfl, rfl⟩
     · intro k hk
       rcases hd with hd | ⟨⟨_, _, hop, _⟩, _⟩
       · rw [hd k hk]; exact hrep.look k hk
@@ -298,7 +302,8 @@ theorem step_refines (hT : legalThreshold T = true) (m : OMap r) (ctx : Ctx)
       .popIterate trivial
     obtain ⟨hlist, _, hcnt, _, _⟩ := pop_refines T hT D m hg.inv ctx hg.ctx
     obtain ⟨_, hcre⟩ := E2EM.omap_popKeep m ctx
-    refine ⟨_, [], rfl, hg', ⟨?_, ?_, ?_, ?_⟩, rfl, ?_⟩
+    obtain ⟨_, hlist', _, _, _⟩ := pop_refines T hT D m hg.inv ctx hg.ctx
+    refine ⟨_, [], rfl, hg', ⟨?_, ?_, ?_, ?_, ?_⟩, rfl, ?_⟩
     · intro k hk
       rcases hd with hd | ⟨⟨_, _, hop, _⟩, _⟩
       · rw [hd k hk]; rfl
@@ -307,6 +312,8 @@ theorem step_refines (hT : legalThreshold T = true) (m : OMap r) (ctx : Ctx)
       exact hcnt
     · intro p hp; cases hp
     · exact List.Pairwise.nil
+    · show ((m.popIterate ctx).2.1.toList.map (·.1)).Perm _
+      rw [hlist']
     · refine ⟨_, rfl, ?_⟩
       simp only [hlist, hcre]
       have hall := hg.inv.allKeyOk
@@ -359,7 +366,7 @@ theorem step_refines (hT : legalThreshold T = true) (m : OMap r) (ctx : Ctx)
       have hreq : request cfg (m, ctx) (.remove k) = ((m', c'), .removed (resolve ctx.created v)) := by
         simp only [request, hrem, hcre]
       have hrep' : Rep T D (m', c') (dictErase l k) := by
-        refine ⟨?_, ?_, allKeyOk_dictErase hrep.keys, keysDistinct_dictErase hrep.dist⟩
+        refine ⟨?_, ?_, allKeyOk_dictErase hrep.keys, keysDistinct_dictErase hrep.dist, ?_⟩
         · intro k' hk'
           rcases hd with hd | ⟨⟨_, _, hop, _⟩, _⟩
           · rw [hd k' hk', dictLookup_dictErase]
@@ -371,6 +378,37 @@ theorem step_refines (hT : legalThreshold T = true) (m : OMap r) (ctx : Ctx)
         · have := length_dictErase hrep.dist hl_some
           show m'.count = _
           omega
+        · -- the keys: both sides lose exactly the keys equal to `k`
+          obtain ⟨m2, c2, heq2, hp2⟩ := (OMap.remove_spec hT hg.cfg hg.inv hq ctx hg.ctx).2 v
+            (mem_of_dictLookup_some hg.inv.allKeyOk hq hdl)
+          rw [hrem] at heq2
+          simp only [Except.ok.injEq, Prod.mk.injEq] at heq2
+          obtain ⟨_, _, rfl, _⟩ := heq2
+          obtain ⟨A, B, hA, hB⟩ := hp2.eff
+          have hdist := hg.inv.distinct
+          rw [hA, KeysDistinct.append_iff, KeysDistinct.cons_iff] at hdist
+          have hperm := hrep.perm
+          show (m'.toList.map (·.1)).Perm ((dictErase l k).map (·.1))
+          have e1 : (dictErase l k).map (·.1) = (l.map (·.1)).filter (fun k' => !k'.same k) := by
+            unfold dictErase; rw [List.filter_map]; rfl
+          have e2 : m'.toList.map (·.1) = (m.toList.map (·.1)).filter (fun k' => !k'.same k) := by
+            rw [hA, hB]
+            simp only [List.map_append, List.map_cons, List.filter_append, List.filter_cons, MKey.same_self,
+              Bool.not_true, Bool.false_eq_true, if_false]
+            congr 1
+            · symm; rw [List.filter_eq_self]
+              intro a ha
+              obtain ⟨p, hp, rfl⟩ := List.mem_map.mp ha
+              have := hdist.2.2 p hp (k, v) List.mem_cons_self
+              simp [this]
+            · symm; rw [List.filter_eq_self]
+              intro a ha
+              obtain ⟨p, hp, rfl⟩ := List.mem_map.mp ha
+              have := hdist.2.1.1 p hp
+              rw [MKey.same_comm] at this
+              simp [this]
+          rw [e1, e2]
+          exact hperm.filter _
       rw [hreq]
       refine ⟨_, dictErase l k, hst, hg', (by rw [hst]; exact hrep'), ?_⟩
       show (match dictLookup l k with
@@ -398,7 +436,30 @@ theorem step_refines (hT : legalThreshold T = true) (m : OMap r) (ctx : Ctx)
         rw [hreq]
         refine ⟨_, l, hst, hg', (by rw [hst]; exact hrep), Or.inr ?_⟩
         rw [hnone] at hlk
-        exact ⟨hlk.symm, rfl, rfl⟩
+        refine ⟨hlk.symm, ?_, rfl, rfl⟩
+        -- refused: the limit check saw more than `climit` entries, hence more than `climit` keys
+        have hspec := OMap.set_spec hT hg.cfg hg.inv hk hv ctx
+        have hlim : TLimited cfg m.d m.root k := by
+          by_cases hl : TLimited cfg m.d m.root k
+          · exact hl
+          · exfalso
+            obtain ⟨_, _, _, heq, _⟩ := hspec.2 hl
+            rw [hr] at heq; cases heq
+        have hcnt : cfg.climit + 1 ≤ groupCount m.d m.root (k.dig 0) :=
+          ((tlimited_iff hT hg.inv.tree hg.inv.sinv k).mp hlim).2
+        have hle : groupCount m.d m.root (k.dig 0) ≤ sameFirstDigest (MTree.toList m.d m.root) (k.dig 0) :=
+          groupCount_le hg.inv.tree (k.dig 0)
+        have hperm := hrep.perm
+        have : sameFirstDigest l (k.dig 0) = sameFirstDigest m.toList (k.dig 0) := by
+          unfold sameFirstDigest
+          have e1 : ∀ (z : List (MKey × Elem)), z.countP (fun p => p.1.dig 0 == k.dig 0) =
+              (z.map (·.1)).countP (fun k' => k'.dig 0 == k.dig 0) := by
+            intro z; rw [List.countP_map]; rfl
+          rw [e1, e1]
+          exact (hperm.countP_eq _).symm
+        rw [this]
+        show cfg.climit < sameFirstDigest (MTree.toList m.d m.root) (k.dig 0)
+        omega
     | ok res =>
       obtain ⟨old, m', c'⟩ := res
       rcases href with ⟨old2, m2, c2, heq, hold, hdict, hcount, hinv', _, _⟩ | ⟨herr, _⟩
@@ -435,7 +496,7 @@ theorem step_refines (hT : legalThreshold T = true) (m : OMap r) (ctx : Ctx)
         have hreq : request cfg (m, ctx) (.set k v) = ((m', c'), .prev (old.map (resolve c'.created))) := by
           simp only [request, hr]
         have hrep' : Rep T D (m', c') (dictSet l k v) := by
-          refine ⟨?_, ?_, allKeyOk_dictSet hrep.keys hk, keysDistinct_dictSet hrep.dist⟩
+          refine ⟨?_, ?_, allKeyOk_dictSet hrep.keys hk, keysDistinct_dictSet hrep.dist, ?_⟩
           · intro k' hk'
             rw [hlook' k' hk', dictLookup_dictSet]
             split
@@ -444,6 +505,34 @@ theorem step_refines (hT : legalThreshold T = true) (m : OMap r) (ctx : Ctx)
           · show m'.count = _
             rw [length_dictSet, hcount, ← hlk, Option.isSome_map]
             split <;> omega
+          · -- the keys: a new key is added on both sides, an overwrite keeps them
+            have hspec := OMap.set_spec hT hg.cfg hg.inv hk hv ctx
+            have hnl : ¬ TLimited cfg m.d m.root k := by
+              intro hl; rw [hspec.1 hl] at hr; cases hr
+            obtain ⟨old2, m2, c2, heq2, hp2⟩ := hspec.2 hnl
+            rw [hr] at heq2
+            simp only [Except.ok.injEq, Prod.mk.injEq] at heq2
+            obtain ⟨rfl, rfl, _⟩ := heq2
+            have hperm := hrep.perm
+            show (m'.toList.map (·.1)).Perm ((dictSet l k v).map (·.1))
+            rcases hp2.eff with ⟨ho, _, A, B, hA, hB⟩ | ⟨v0, A, B, ho, hA, hB⟩
+            · have hnone : dictLookup l k = none := by rw [← hlk, ← hold, ho]; rfl
+              have e1 : (dictSet l k v).map (·.1) = l.map (·.1) ++ [k] := by
+                unfold dictSet; rw [hnone]; simp
+              rw [e1, hB]
+              rw [hA] at hperm
+              simp only [List.map_append, List.map_cons] at hperm ⊢
+              exact (List.perm_middle.trans (List.Perm.cons k hperm)).trans (List.perm_append_singleton k _).symm
+            · have hsome : (dictLookup l k).isSome = true := by rw [← hlk, ← hold, ho]; rfl
+              have e1 : (dictSet l k v).map (·.1) = l.map (·.1) := by
+                unfold dictSet; rw [if_pos hsome, List.map_map]
+                apply List.map_congr_left
+                intro p _
+                simp only [Function.comp]
+                split <;> rfl
+              rw [e1, hB]
+              rw [hA] at hperm
+              simpa using hperm
         rw [hreq]
         refine ⟨_, dictSet l k v, hst, hg', (by rw [hst]; exact hrep'), Or.inl ⟨?_, rfl⟩⟩
         rw [hold_res, hold, hlk]
@@ -456,7 +545,7 @@ end step
 theorem run_refines_from (T : Nat) (hT : legalThreshold T = true) (D : DigestFn (r + 1)) (cfg : MCfg) :
     ∀ (reqs : List MReq) (x : (OMap r × Ctx) × St (E2EM.MSSlab r) (E2EM.MSSlab r)) (l : List (MKey × Elem)),
       MGoodF (idCodec r) T D cfg x → Rep T D x.1 l → (∀ q ∈ reqs, q.Ok T D) →
-      DictHistory T D l reqs (run cfg x.1 reqs).2 ∧
+      DictHistory T D cfg.climit l reqs (run cfg x.1 reqs).2 ∧
       ∃ x' l', x'.1 = (run cfg x.1 reqs).1 ∧ MGoodF (idCodec r) T D cfg x' ∧ Rep T D x'.1 l'
   | [], x, l, hg, hrep, _ => ⟨trivial, x, l, rfl, hg, hrep⟩
   | q :: qs, x, l, hg, hrep, hok => by
@@ -481,19 +570,20 @@ theorem run_take (cfg : MCfg) : ∀ (reqs : List MReq) (s : OMap r × Ctx) (n : 
       * the list of answers is an answer list of the reference dictionary started empty
         (`DictHistory`: previous values, looked-up values, presence, removed values, counts, popped
         pairs all as in an association list; a refusal is either key-not-found for an absent key or
-        the collision limit for a new key, and leaves the dictionary unchanged);
+        the collision limit for a NEW key that shares its first-level digest with more than `climit`
+        keys of the dictionary, and leaves the dictionary unchanged);
       * after every prefix of the history the map satisfies `MapInv` and its count is the number of
         pairs it holds. -/
 theorem run_refines (T : Nat) (hT : legalThreshold T = true) (D : DigestFn (r + 1)) (cfg : MCfg)
     (hcT : cfg.T = T) (hcL : cfg.L = r + 1) (haddr : cfg.addr ≠ 0) (ty : Nat) (seedOf : SlabID → Nat)
     (reqs : List MReq) (hreqs : ∀ q ∈ reqs, q.Ok T D) :
-    DictHistory T D [] reqs (run cfg (OMap.new (r := r) cfg.addr ty seedOf ⟨0, [], []⟩) reqs).2 ∧
+    DictHistory T D cfg.climit [] reqs (run cfg (OMap.new (r := r) cfg.addr ty seedOf ⟨0, [], []⟩) reqs).2 ∧
     ∀ n, MapInv T D (run cfg (OMap.new (r := r) cfg.addr ty seedOf ⟨0, [], []⟩) (reqs.take n)).1.1 ∧
       (run cfg (OMap.new (r := r) cfg.addr ty seedOf ⟨0, [], []⟩) (reqs.take n)).1.1.count =
         (run cfg (OMap.new (r := r) cfg.addr ty seedOf ⟨0, [], []⟩) (reqs.take n)).1.1.toList.length := by
   obtain ⟨g0, _, _, _, hl0⟩ := E2EM.mgoodF_new (idCodec r) (idCodec_roundTrip r) T hT D cfg hcT hcL haddr ty seedOf
   have hrep0 : Rep T D (newS (idCodec r) cfg.addr ty seedOf).1 [] :=
-    ⟨fun k _ => hl0 k, rfl, fun p hp => (by cases hp), List.Pairwise.nil⟩
+    ⟨fun k _ => hl0 k, rfl, fun p hp => (by cases hp), List.Pairwise.nil, List.Perm.refl _⟩
   have hs0 : (newS (idCodec r) cfg.addr ty seedOf).1 = OMap.new (r := r) cfg.addr ty seedOf ⟨0, [], []⟩ := rfl
   constructor
   · have := (run_refines_from T hT D cfg reqs _ [] g0 hrep0 hreqs).1
